@@ -72,8 +72,8 @@ CHECKS = {
             "NOT decided: 'a send of no more than balance minus fees always succeeds' (completeness of a greedy search; not expressible as a cheap contract), that the proofs handed out are unspent at the mint (mint-side state), removal from the spendable store on every path, the composition Send -> recipient Receive (two parties). Assumed: A-FEESUM (ppk sums and count*ppk below 2^63: no wrap in the fee arithmetic), amounts below 2^60, wallet proof getters return newly built slices.",
             "DESIGN.md §8 C18"),
     "C19": (True,
-            "PARTIAL. Ghost model of the NUT-13 counters (stored counter per keyset, end of the last derived range, 'may be signed up to'). Proved for all inputs on the paths under contract: createBlindedMessages takes the counters old..old+len-1 in order and advances the caller's counter by exactly len (loop invariant; generateDeterministicSecret proved to derive secret and blinding factor from the two different children 0 and 1 of counter'); wallet.MintTokens and swapToSend (with and without spending condition, with and without change) start deriving at the stored counter, never below anything that may already be signed (call-site obligation), and on success leave the stored counter past everything they had signed - incl. the exact increment arithmetic over send and change outputs and the uint32 conversions; getActiveKeyset (keyset rotation, fee change) never moves a stored counter backwards; Restore saves the counter only after a batch with signatures and then sets it to exactly the scan position, starting from 0; stored counters are never advanced beyond the derived range (no gaps: @nogap); Melt derives its NUT-08 blank outputs from the counter as stored after the proof selection (which may swap and advance it); RECEIVE PATHS (round 4): createSwapRequest proved to derive its outputs from the STORED counter of exactly the mint's active keyset, never below anything that may be signed, and to hand back a request whose keyset is that keyset (interior pointer linked to the enclosing walletMint field, see DESIGN 00.9); swap raises 'may be signed' (PostSwap); Receive, ReceiveHTLC and ReclaimUnspentProofs advance that keyset's counter by exactly the number of outputs of the request (the nut11/nut14 output-witness helpers are proved to return the same list) and on success leave every stored counter past everything that may be signed (@past); swapProofs (melt at one mint, mint at the other) keeps it. Restore additionally saves the scan position after EVERY batch the mint had signatures for, whatever the state of the proofs (loop invariant 'batches with signatures == saves', ghost counters on PostRestore / IncrementKeysetCounter). One obligation pair FAILS and is an open known finding: swapToTrusted on a SIG_ALL token has outputs signed at the token's mint and never advances that counter (replayed on the real code).",
-            "NOT covered (stated): the advance of Melt / CheckMeltQuoteState by the number of change signatures (the ghost 'may be signed' over-approximates there), wallet crash points between POST and counter increment, restore completeness over whole histories (a multi-party, whole-history statement), interleavings of wallet operations (Receive derives outside the wallet lock). Assumed: bolt implements the counter part of storage.WalletDB (Increment adds, SaveKeyset writes the record's counter, GetKeysetCounter reads it) - kept honest by the BOUNDED conformance harness bounded/wdbconf on the real bbolt store (labelled bounded, not proof); A-NEWMINT: AddMint (called only for a mint not in w.mints) saves keyset records over ids that have no stored/derived/signed counter yet (assumed contract; the swapToTrusted finding is a history where it is false); A-COUNTER: a counter range never crosses 2^31 (hardened index); A-KEYSET: keyset ids are 8 bytes and stored public keys are non-nil; history induction only over successful (fault-free) operations, as the property states.",
+            "PARTIAL. Ghost model of the NUT-13 counters (stored counter per keyset, end of the last derived range, 'may be signed up to'). Proved for all inputs on the paths under contract: createBlindedMessages takes the counters old..old+len-1 in order and advances the caller's counter by exactly len (loop invariant; generateDeterministicSecret proved to derive secret and blinding factor from the two different children 0 and 1 of counter'); wallet.MintTokens and swapToSend (with and without spending condition, with and without change) start deriving at the stored counter, never below anything that may already be signed (call-site obligation), and on success leave the stored counter past everything they had signed - incl. the exact increment arithmetic over send and change outputs and the uint32 conversions; getActiveKeyset (keyset rotation, fee change) never moves a stored counter backwards; Restore saves the counter only after a batch with signatures and then sets it to exactly the scan position, starting from 0; stored counters are never advanced beyond the derived range (no gaps: @nogap); Melt derives its NUT-08 blank outputs from the counter as stored after the proof selection (which may swap and advance it); RECEIVE PATHS (round 4): createSwapRequest proved to derive its outputs from the STORED counter of exactly the mint's active keyset, never below anything that may be signed, and to hand back a request whose keyset is that keyset (interior pointer linked to the enclosing walletMint field, see DESIGN 00.9); swap raises 'may be signed' (PostSwap); Receive, ReceiveHTLC and ReclaimUnspentProofs advance that keyset's counter by exactly the number of outputs of the request (the nut11/nut14 output-witness helpers are proved to return the same list) and on success leave every stored counter past everything that may be signed (@past); swapProofs (melt at one mint, mint at the other) keeps it. Restore additionally saves the scan position after EVERY batch the mint had signatures for, whatever the state of the proofs (loop invariant 'batches with signatures == saves', ghost counters on PostRestore / IncrementKeysetCounter). AddMint is proved to save every keyset record with the counter the wallet has stored for it (never moves a counter; repaired in bf77751). Melt records the keyset of its change outputs with a quote that goes pending and CheckMeltQuoteState advances exactly that keyset's counter by the number of change signatures (repaired in ab3980a). One obligation pair FAILS and is an open known finding: swapToTrusted on a SIG_ALL token has outputs signed at the token's mint and never advances that counter (replayed on the real code).",
+            "NOT covered (stated): the advance of Melt / CheckMeltQuoteState by the number of change signatures (the ghost 'may be signed' over-approximates there), wallet crash points between POST and counter increment, restore completeness over whole histories (a multi-party, whole-history statement), interleavings of wallet operations (Receive derives outside the wallet lock). Assumed: bolt implements the counter part of storage.WalletDB (Increment adds, SaveKeyset writes the record's counter, GetKeysetCounter reads it) - kept honest by the BOUNDED conformance harness bounded/wdbconf on the real bbolt store (labelled bounded, not proof); A-COUNTER: a counter range never crosses 2^31 (hardened index); A-KEYSET: keyset ids are 8 bytes and stored public keys are non-nil; history induction only over successful (fault-free) operations, as the property states.",
             "DESIGN.md §8 C19"),
     "C20": (True,
             "The response writer is ghost state (status, body). All 13 handlers of mint/server.go proved: the status is 200 or 400; when the mint operation was executed and refused, the answer is 400; (non-cached handlers) 200 only after exactly one successful execution; every error handed to writeErr is a cashu error value or a non-nil *cashu.Error that does NOT carry an internal (DB / Lightning backend) code - proved at every writeErr call site from error-shape postconditions that are themselves proved on every mint API function and helper (Swap, MintTokens, MeltTokens, Request/GetMintQuote*, Request/GetMeltQuote*, ProofsStateCheck, RestoreSignatures, verifyProofs, verifyBlindedMessages, signBlindedMessages, settle*, nut11/nut14 verifiers and parsers, decodeJsonReqBody); writeErr proved to answer 400 with the JSON of exactly that error. NUT-19 cache (swap and mint/bolt11): Cache.Get/Set proved against a map model (hit <=> key present, other keys untouched, stored value = given bytes); the key handed to Get and Set is method + URL + body bytes (call-site clauses); the operation runs only after a decode success and a cache miss; Set is reached only after the operation succeeded; a hit is answered with the cached bytes without executing; a refusal leaves the cache's key set unchanged; the bytes cached are the bytes written.",
